@@ -1,4 +1,563 @@
-//! engine `rcdom` (stub)
-pub fn run(_fields: &[&str]) -> String {
-    "unimplemented".to_string()
+//! engine `rcdom` (see lean/H5V/Model/DomDriver.lean for the protocol)
+//!   ops<TAB>op;op;…            replay a TreeSink call trace on the real RcDom, through the
+//!                              TreeSink trait and the contract monitor (`TracingSink<RcDom>`);
+//!                              output: per-op results, canonical dump incl. parent pointers
+//!                              (Weak upgrade), template contents, quirks mode, parse errors and
+//!                              the call sequence rcdom's `Serialize` impl makes on a recording
+//!                              `Serializer`.
+//!   parse-html<TAB>opts<TAB>chunk|chunk…   harvest: run the real HTML parser over
+//!   parse-xml<TAB>opts<TAB>chunk|chunk…    `TracingSink<RcDom>` and print the op trace
+//!                              (`trace@V=<op index>:CONTRACT-VIOLATION <which>|…`).
+//!                              opts: `-` or comma list of `s1` (scripting on), `frag=<hex local name>`.
+use crate::proto::*;
+use crate::sinkops::*;
+use html5ever::tendril::TendrilSink;
+use markup5ever::interface::tree_builder::{NodeOrText, QuirksMode, TreeSink};
+use markup5ever::serialize::{AttrRef, Serialize, Serializer, TraversalScope};
+#[allow(unused_imports)]
+use markup5ever::{namespace_url, ns, LocalName, QualName};
+use markup5ever_rcdom::{Handle, Node, NodeData, RcDom, SerializableHandle};
+use std::collections::{HashMap, VecDeque};
+use std::io;
+use std::panic::{catch_unwind, AssertUnwindSafe};
+use std::rc::Rc;
+use tendril::StrTendril;
+
+type TS = TracingSink<RcDom>;
+type TH = TracedHandle<Handle>;
+
+fn panic_class(e: &(dyn std::any::Any + Send)) -> String {
+    let msg = if let Some(s) = e.downcast_ref::<&str>() {
+        s.to_string()
+    } else if let Some(s) = e.downcast_ref::<String>() {
+        s.clone()
+    } else {
+        "?".to_string()
+    };
+    let table: &[(&str, &str)] = &[
+        ("previous_parent.is_none()", "append-has-parent"),
+        ("not a template element", "not-template"),
+        ("not an element", "not-element"),
+        ("couldn't find in parent's children", "parent-mismatch"),
+        ("append_before_sibling called on node without parent", "abs-no-parent"),
+        ("insertion index", "insert-oob"),
+        ("already borrowed", "borrow"),
+        ("already mutably borrowed", "borrow"),
+        ("Option::unwrap()", "unwrap-none"),
+        ("Rc::ptr_eq", "reparent-assert"),
+        ("Trying to get selectedcontent of non-element", "sc-non-element"),
+        ("called with non-element node", "mc-non-element"),
+        ("left == right", "debug-assert"),
+        ("Can't serialize Document node itself", "ser-document"),
+        ("dangling weak", "dangling-weak"),
+    ];
+    for (pat, class) in table {
+        if msg.contains(pat) {
+            return class.to_string();
+        }
+    }
+    format!("other({})", msg.replace(['\n', '\t', ';', '@'], " "))
+}
+
+fn parse_child(handles: &[TH], s: &str) -> Option<NodeOrText<TH>> {
+    if let Some(rest) = s.strip_prefix('n') {
+        let k: usize = rest.parse().ok()?;
+        Some(NodeOrText::AppendNode(handles.get(k)?.clone()))
+    } else if let Some(rest) = s.strip_prefix('t') {
+        Some(NodeOrText::AppendText(StrTendril::from_slice(&parse_string(rest)?)))
+    } else {
+        None
+    }
+}
+
+fn h<'a>(handles: &'a [TH], s: &str) -> Option<&'a TH> {
+    // same as Lean's String.toNat?: decimal digits only
+    if s.is_empty() || !s.bytes().all(|b| b.is_ascii_digit()) {
+        return None;
+    }
+    handles.get(s.parse::<usize>().ok()?)
+}
+
+fn st(s: &str) -> Option<StrTendril> {
+    Some(StrTendril::from_slice(&parse_string(s)?))
+}
+
+fn show_handle(id: usize, n: usize) -> String {
+    if id < n {
+        format!("h{}", id)
+    } else {
+        "h?".into()
+    }
+}
+
+/// run one op through the TreeSink trait; None = malformed
+fn run_op(sink: &TS, handles: &mut Vec<TH>, op: &str) -> Option<String> {
+    let f: Vec<&str> = op.split(',').collect();
+    let r = match f.as_slice() {
+        ["pe", m] => {
+            sink.parse_error(parse_string(m)?.into());
+            "ok".into()
+        },
+        ["doc"] => {
+            let d = sink.get_document();
+            show_handle(d.id, handles.len())
+        },
+        ["en", x] => {
+            let t = h(handles, x)?;
+            let n = sink.elem_name(t);
+            use markup5ever::interface::ElemName;
+            format!("n:{}/{}", show_str(n.ns()), show_str(n.local_name()))
+        },
+        ["ce", q, fl, a] => {
+            let flags = parse_flags(fl)?;
+            let template = flags.template;
+            let e = sink.create_element(parse_qual(q)?, parse_attrs(a)?, flags);
+            let id = e.id;
+            handles.push(e);
+            if template {
+                let inner = sink.handles.borrow()[id + 1].clone();
+                handles.push(TracedHandle { id: id + 1, inner });
+            }
+            format!("h{}", id)
+        },
+        ["cc", t] => {
+            let e = sink.create_comment(st(t)?);
+            let id = e.id;
+            handles.push(e);
+            format!("h{}", id)
+        },
+        ["cp", t, d] => {
+            let e = sink.create_pi(st(t)?, st(d)?);
+            let id = e.id;
+            handles.push(e);
+            format!("h{}", id)
+        },
+        ["ap", p, c] => {
+            let c = parse_child(handles, c)?;
+            sink.append(h(handles, p)?, c);
+            "ok".into()
+        },
+        ["abp", e, p, c] => {
+            let c = parse_child(handles, c)?;
+            sink.append_based_on_parent_node(h(handles, e)?, h(handles, p)?, c);
+            "ok".into()
+        },
+        ["dt", n, p, s] => {
+            sink.append_doctype_to_document(st(n)?, st(p)?, st(s)?);
+            "ok".into()
+        },
+        ["ms", x] => {
+            sink.mark_script_already_started(h(handles, x)?);
+            "ok".into()
+        },
+        ["pop", x] => {
+            sink.pop(h(handles, x)?);
+            "ok".into()
+        },
+        ["tc", x] => {
+            let t = sink.get_template_contents(h(handles, x)?);
+            show_handle(t.id, handles.len())
+        },
+        ["sn", x, y] => {
+            if sink.same_node(h(handles, x)?, h(handles, y)?) {
+                "T".into()
+            } else {
+                "F".into()
+            }
+        },
+        ["qm", m] => {
+            let m = match *m {
+                "q" => QuirksMode::Quirks,
+                "l" => QuirksMode::LimitedQuirks,
+                "n" => QuirksMode::NoQuirks,
+                _ => return None,
+            };
+            sink.set_quirks_mode(m);
+            "ok".into()
+        },
+        ["abs", s, c] => {
+            let c = parse_child(handles, c)?;
+            sink.append_before_sibling(h(handles, s)?, c);
+            "ok".into()
+        },
+        ["aa", x, a] => {
+            sink.add_attrs_if_missing(h(handles, x)?, parse_attrs(a)?);
+            "ok".into()
+        },
+        ["af", t, fm, n, p] => {
+            let prev = if *p == "-" { None } else { Some(h(handles, p)?) };
+            sink.associate_with_form(h(handles, t)?, h(handles, fm)?, (h(handles, n)?, prev));
+            "ok".into()
+        },
+        ["rm", x] => {
+            sink.remove_from_parent(h(handles, x)?);
+            "ok".into()
+        },
+        ["rc", n, p] => {
+            sink.reparent_children(h(handles, n)?, h(handles, p)?);
+            "ok".into()
+        },
+        ["ip", x] => {
+            if sink.is_mathml_annotation_xml_integration_point(h(handles, x)?) {
+                "T".into()
+            } else {
+                "F".into()
+            }
+        },
+        ["ln", n] => {
+            if n.is_empty() || !n.bytes().all(|b| b.is_ascii_digit()) {
+                return None;
+            }
+            sink.set_current_line(n.parse().ok()?);
+            "ok".into()
+        },
+        ["adsr", x] => {
+            if sink.allow_declarative_shadow_roots(h(handles, x)?) {
+                "T".into()
+            } else {
+                "F".into()
+            }
+        },
+        ["ads", l, t, a] => {
+            if sink.attach_declarative_shadow(h(handles, l)?, h(handles, t)?, &parse_attrs(a)?) {
+                "T".into()
+            } else {
+                "F".into()
+            }
+        },
+        ["mc", x] => {
+            sink.maybe_clone_an_option_into_selectedcontent(h(handles, x)?);
+            "ok".into()
+        },
+        _ => return None,
+    };
+    Some(r)
+}
+
+// ------------------------------------------------------------------ dump
+
+fn data_str(d: &NodeData) -> String {
+    match d {
+        NodeData::Document => "doc".into(),
+        NodeData::Doctype {
+            name,
+            public_id,
+            system_id,
+        } => format!("dt,{},{},{}", show_str(name), show_str(public_id), show_str(system_id)),
+        NodeData::Text { contents } => format!("tx,{}", show_str(&contents.borrow())),
+        NodeData::Comment { contents } => format!("cm,{}", show_str(contents)),
+        NodeData::Element {
+            name,
+            attrs,
+            mathml_annotation_xml_integration_point,
+            ..
+        } => format!(
+            "el,{},{},{}",
+            show_qual(name),
+            show_attr_vec(&attrs.borrow()),
+            if *mathml_annotation_xml_integration_point { "m" } else { "-" }
+        ),
+        NodeData::ProcessingInstruction { target, contents } => {
+            format!("pi,{},{}", show_str(target), show_str(contents))
+        },
+    }
+}
+
+/// the node's parent pointer: None | Some(Ok(handle)) | Some(Err(())) when the Weak dangles
+fn parent_of(n: &Handle) -> Option<Result<Handle, ()>> {
+    let w = n.parent.take();
+    let r = w.as_ref().map(|w| w.upgrade().ok_or(()));
+    n.parent.set(w);
+    r
+}
+
+fn numbering(handles: &[Handle]) -> (Vec<Handle>, HashMap<*const Node, usize>) {
+    let mut order: Vec<Handle> = vec![];
+    let mut map: HashMap<*const Node, usize> = HashMap::new();
+    for hd in handles {
+        map.entry(Rc::as_ptr(hd)).or_insert_with(|| {
+            order.push(hd.clone());
+            order.len() - 1
+        });
+    }
+    let mut i = 0;
+    while i < order.len() {
+        let kids: Vec<Handle> = order[i].children.borrow().iter().cloned().collect();
+        for k in kids {
+            if !map.contains_key(&Rc::as_ptr(&k)) {
+                map.insert(Rc::as_ptr(&k), order.len());
+                order.push(k);
+            }
+        }
+        i += 1;
+    }
+    (order, map)
+}
+
+fn num_of(map: &HashMap<*const Node, usize>, n: &Handle) -> String {
+    match map.get(&Rc::as_ptr(n)) {
+        Some(k) => k.to_string(),
+        None => "?".into(),
+    }
+}
+
+fn show_nodes(order: &[Handle], map: &HashMap<*const Node, usize>) -> String {
+    let mut out = vec![];
+    for (k, n) in order.iter().enumerate() {
+        let tc = match &n.data {
+            NodeData::Element {
+                template_contents, ..
+            } => match &*template_contents.borrow() {
+                Some(t) => num_of(map, t),
+                None => "-".into(),
+            },
+            _ => "-".into(),
+        };
+        let p = match parent_of(n) {
+            None => "-".into(),
+            Some(Ok(p)) => num_of(map, &p),
+            Some(Err(())) => "dangling".into(),
+        };
+        let kids = n.children.borrow();
+        let c = if kids.is_empty() {
+            "-".to_string()
+        } else {
+            kids.iter().map(|c| num_of(map, c)).collect::<Vec<_>>().join(" ")
+        };
+        out.push(format!("{}#{}#{}#{}#{}", k, data_str(&n.data), tc, p, c));
+    }
+    out.join("|")
+}
+
+#[derive(Default)]
+struct Recorder {
+    events: Vec<String>,
+}
+
+impl Serializer for Recorder {
+    fn start_elem<'a, AttrIter>(&mut self, name: QualName, attrs: AttrIter) -> io::Result<()>
+    where
+        AttrIter: Iterator<Item = AttrRef<'a>>,
+    {
+        self.events
+            .push(format!("S{}[{}]", show_qual(&name), show_attrs(attrs)));
+        Ok(())
+    }
+    fn end_elem(&mut self, name: QualName) -> io::Result<()> {
+        self.events.push(format!("E{}", show_qual(&name)));
+        Ok(())
+    }
+    fn write_text(&mut self, text: &str) -> io::Result<()> {
+        self.events.push(format!("T{}", show_str(text)));
+        Ok(())
+    }
+    fn write_comment(&mut self, text: &str) -> io::Result<()> {
+        self.events.push(format!("C{}", show_str(text)));
+        Ok(())
+    }
+    fn write_doctype(&mut self, name: &str) -> io::Result<()> {
+        self.events.push(format!("D{}", show_str(name)));
+        Ok(())
+    }
+    fn write_processing_instruction(&mut self, target: &str, data: &str) -> io::Result<()> {
+        self.events
+            .push(format!("P{},{}", show_str(target), show_str(data)));
+        Ok(())
+    }
+}
+
+/// would rcdom's serializer loop run for more than `bound` iterations (it never ends on a cyclic
+/// structure)?  Simulates the loop's work list without calling a serializer.
+fn serialization_diverges(root: &Handle, children_only: bool, bound: usize) -> bool {
+    enum Op {
+        Open(Handle),
+        Close,
+    }
+    let mut ops: VecDeque<Op> = VecDeque::new();
+    if children_only {
+        ops.extend(root.children.borrow().iter().map(|c| Op::Open(c.clone())));
+    } else {
+        ops.push_back(Op::Open(root.clone()));
+    }
+    let mut steps = 0usize;
+    while let Some(op) = ops.pop_front() {
+        steps += 1;
+        if steps > bound {
+            return true;
+        }
+        if let Op::Open(n) = op {
+            match n.data {
+                NodeData::Element { .. } => {
+                    ops.push_front(Op::Close);
+                    for c in n.children.borrow().iter().rev() {
+                        ops.push_front(Op::Open(c.clone()));
+                    }
+                },
+                NodeData::Document => return false, // the real loop panics here
+                _ => {},
+            }
+        }
+    }
+    false
+}
+
+fn show_ser(handles: &[Handle], total_nodes: usize) -> String {
+    let mut out = vec![];
+    for (k, n) in handles.iter().enumerate() {
+        if parent_of(n).is_some() {
+            continue;
+        }
+        let children_only = matches!(n.data, NodeData::Document);
+        let r = if serialization_diverges(n, children_only, 2 * total_nodes + 2) {
+            "PANIC:diverges".to_string()
+        } else {
+            let scope = if children_only {
+                TraversalScope::ChildrenOnly(None)
+            } else {
+                TraversalScope::IncludeNode
+            };
+            let sh: SerializableHandle = n.clone().into();
+            let mut rec = Recorder::default();
+            match catch_unwind(AssertUnwindSafe(|| sh.serialize(&mut rec, scope))) {
+                Ok(Ok(())) => {
+                    if rec.events.is_empty() {
+                        "-".into()
+                    } else {
+                        rec.events.join("+")
+                    }
+                },
+                Ok(Err(_)) => "io-error".into(),
+                Err(e) => format!("PANIC:{}", panic_class(&*e)),
+            }
+        };
+        out.push(format!("h{}:{}", k, r));
+    }
+    out.join("|")
+}
+
+fn final_dump(sink: &TS) -> String {
+    let handles: Vec<Handle> = sink.handles.borrow().clone();
+    let (order, map) = numbering(&handles);
+    let q = match sink.inner.quirks_mode.get() {
+        QuirksMode::Quirks => "quirks",
+        QuirksMode::LimitedQuirks => "limited",
+        QuirksMode::NoQuirks => "no",
+    };
+    let errs = sink.inner.errors.borrow();
+    let e = if errs.is_empty() {
+        "-".to_string()
+    } else {
+        errs.iter().map(|m| show_str(m)).collect::<Vec<_>>().join("|")
+    };
+    format!(
+        "@N={}@Q={}@E={}@S={}",
+        show_nodes(&order, &map),
+        q,
+        e,
+        show_ser(&handles, order.len())
+    )
+}
+
+fn replay(ops: &str) -> String {
+    let sink: TS = TracingSink::new(RcDom::default(), true);
+    let doc_inner = sink.handles.borrow()[0].clone();
+    let mut handles: Vec<TH> = vec![TracedHandle {
+        id: 0,
+        inner: doc_inner,
+    }];
+    let mut outs: Vec<String> = vec![];
+    if ops != "-" {
+        for op in ops.split(';') {
+            let before = sink.violation_count();
+            let r = catch_unwind(AssertUnwindSafe(|| run_op(&sink, &mut handles, op)));
+            let flag = if sink.violation_count() > before { "!" } else { "" };
+            match r {
+                Ok(None) => return "bad-op".into(),
+                Ok(Some(o)) => outs.push(format!("{}{}", flag, o)),
+                Err(e) => {
+                    outs.push(format!("{}PANIC:{}", flag, panic_class(&*e)));
+                    return outs.join(";");
+                },
+            }
+        }
+    }
+    format!("{}{}", outs.join(";"), final_dump(&sink))
+}
+
+// ------------------------------------------------------------------ harvesting traces from real parses
+
+fn show_trace(trace: &[String], violations: &[(usize, String)]) -> String {
+    let v = if violations.is_empty() {
+        "-".to_string()
+    } else {
+        violations
+            .iter()
+            .map(|(i, w)| format!("{}:CONTRACT-VIOLATION {}", i, w))
+            .collect::<Vec<_>>()
+            .join("|")
+    };
+    format!("{}@V={}", if trace.is_empty() { "-".to_string() } else { trace.join(";") }, v)
+}
+
+fn parse_chunks(s: &str) -> Option<Vec<String>> {
+    s.split('|').map(parse_string).collect()
+}
+
+fn harvest(xml: bool, opts: &str, chunks: &str) -> String {
+    let chunks = match parse_chunks(chunks) {
+        Some(c) => c,
+        None => return "bad-case".into(),
+    };
+    let mut scripting = false;
+    let mut frag: Option<String> = None;
+    if opts != "-" {
+        for o in opts.split(',') {
+            if o == "s1" {
+                scripting = true;
+            } else if let Some(x) = o.strip_prefix("frag=") {
+                match parse_string(x) {
+                    Some(n) => frag = Some(n),
+                    None => return "bad-case".into(),
+                }
+            } else {
+                return "bad-case".into();
+            }
+        }
+    }
+    let sink: TS = TracingSink::new(RcDom::default(), true);
+    if xml {
+        let mut p = xml5ever::driver::parse_document(sink, Default::default());
+        for c in &chunks {
+            p.process(StrTendril::from_slice(c));
+        }
+        let out = p.finish();
+        show_trace(&out.trace, &out.violations)
+    } else {
+        let mut o = html5ever::ParseOpts::default();
+        o.tree_builder.scripting_enabled = scripting;
+        let mut p = match frag {
+            None => html5ever::parse_document(sink, o),
+            Some(ctx) => html5ever::parse_fragment(
+                sink,
+                o,
+                QualName::new(None, ns!(html), LocalName::from(&*ctx)),
+                vec![],
+                scripting,
+            ),
+        };
+        for c in &chunks {
+            p.process(StrTendril::from_slice(c));
+        }
+        let out = p.finish();
+        show_trace(&out.trace, &out.violations)
+    }
+}
+
+pub fn run(fields: &[&str]) -> String {
+    match fields {
+        ["ops", ops] => replay(ops),
+        ["parse-html", opts, chunks] => harvest(false, opts, chunks),
+        ["parse-xml", opts, chunks] => harvest(true, opts, chunks),
+        _ => "bad-case".into(),
+    }
 }
